@@ -60,13 +60,16 @@ structure Params where
   recheckAfterDial   : Bool      -- 9b690e3: `reconnect` re-checks `c.closed` after installing the new connection
   terminateBeforeErr : Bool      -- 2c3eae7: `writeloop` terminates the connection BEFORE `req.err <- err`
   cleanNeedsSettled  : Bool      -- not about the code: the ghost `clean` requires a settled connection (see `settled`)
+  retries            : Nat       -- `retry := 3` in `doRountrip`: re-transmissions a call may make after the first
+                                 -- transmission. Not trusted: the harness OBSERVES the budget of the real code
+                                 -- (`lts.budget`, and the `b<n>` header of every scenario) and compares.
   deriving Repr, DecidableEq, Inhabited
 
 /-- the code as it is now. -/
 def current : Params :=
   { recvCheckTearsDown := true, reuseDeadConn := false, terminateClosesTx := false,
     errChBuffered := true, closeRepaired := true, recheckAfterDial := true,
-    terminateBeforeErr := true, cleanNeedsSettled := true }
+    terminateBeforeErr := true, cleanNeedsSettled := true, retries := 3 }
 
 /-- readloop. `r2c`/`r2s`: holds a decoded response (colour) before the `rx` hand-off.
     `rtA1`/`rtA2`: `Recv` failed (retryable: io.EOF, io.ErrClosedPipe / fatal: anything else), about to
@@ -328,7 +331,7 @@ def stepK (p : Params) (s : St) : List St :=
   | .ktB => [kResult { swapTx p s with netClosed := true } s.kres]
   | .k7c =>
     [if p.closeRepaired ∧ s.cclosed then { s with kp := .retErr }
-     else { s with retry := s.retry - 1, ntx := max s.ntx (4 - s.retry), kp := .rc0 }]
+     else { s with retry := s.retry - 1, ntx := max s.ntx (p.retries + 1 - s.retry), kp := .rc0 }]
   | .retOk | .retErr =>
     [{ s with kp := .idle, kres := 0, retry := 0, kctx := false, ntx := 0, clean := false, born := false }]
 
@@ -350,11 +353,12 @@ def stepC (p : Params) (s : St) : List St :=
 def stepInt (p : Params) (s : St) : List St :=
   stepK p s ++ stepR p s ++ stepW p s ++ stepC p s
 
-/-- the read loop is not between a failed `Recv` and the `cancel` of its `terminate`. (A call that
+/-- the read loop is not between a failed `Recv` and the `cancel` of its `terminate` on a connection whose
+    context is still live. (A call that
     starts inside that window overlaps the detection of the fault: it can still find the connection
     live and then fail with the read error. Since 2c3eae7 there is no such window on the write side
     that a later call could fall into: the write loop cancels before it reports.) -/
-def settled (s : St) : Bool := !(s.rp == .rtA1 || s.rp == .rtA2)
+def settled (s : St) : Bool := !((s.rp == .rtA1 || s.rp == .rtA2) && s.cause == 0)
 
 def kActive (s : St) : Bool := !(s.kp == .idle || s.kp == .retOk || s.kp == .retErr)
 
@@ -363,7 +367,7 @@ def kActive (s : St) : Bool := !(s.kp == .idle || s.kp == .retOk || s.kp == .ret
 /-- a new call takes the mutex. -/
 def envStart (p : Params) (s : St) : List St :=
   if s.kp = .idle then
-    [{ s with kp := .k0, retry := 3, ntx := 0, kctx := false, born := s.cclosed,
+    [{ s with kp := .k0, retry := p.retries, ntx := 0, kctx := false, born := s.cclosed,
               clean := !s.cclosed && s.cp == .c0 && (settled s || !p.cleanNeedsSettled) }]
   else []
 
@@ -413,61 +417,86 @@ def stepEnv (p : Params) (s : St) : List St :=
   ++ (dirty (envReadFault s 1 ++ envReadFault s 2 ++ envWriteFault p s 1 ++ envWriteFault p s 2 ++ envDialFail s))
 
 /-- FUSION OF NO-OP STEPS. A `cancel` on an already cancelled context, a swap+close on an already
-    swapped and closed connection, and the loop test `!c.closed.Load()` once `closed` is set, change
-    nothing but the program counter of the goroutine executing them; the flags are monotone, so such a
-    step stays a no-op, commutes with every step of every other process, and is not observed by any
-    predicate of this file. It is therefore fused with the step that precedes it (of the same goroutine,
-    or of the goroutine that set the flag). `norm` is applied to every successor state. -/
-def norm1 (p : Params) (s : St) : St :=
-  let dead := s.txNil && s.netClosed
-  let rp := if !s.has then s.rp else match s.rp with
-    | .r0 => if s.closed then .rEnd else .r0
-    | .rtA1 => if s.cause != 0 then (if dead then .rEnd else .rtB) else .rtA1
-    | .rtA2 => if s.cause != 0 then (if dead then .rEnd else .rtB) else .rtA2
+    swapped and closed connection, the loop test `!c.closed.Load()` once `closed` is set, and what is
+    left of a `Close()` whose connection has been let go of by `reconnect`, change nothing but the program
+    counter of the goroutine executing them; the flags are monotone, so such a step stays a no-op. It is
+    fused with the step that precedes it (of the same goroutine, or of the goroutine that set the flag):
+    `norm` is applied to every successor state. The certificate and the theorems are about the FUSED
+    system `sys`. The fusion is not proved sound in Lean; it is CHECKED BY EVALUATION outside the kernel on
+    every run of the check (`lts.unfused`): the reachable set of the unfused system `usys` (about four times
+    as many states) is explored, every predicate of `ubad` is evaluated on every one of its states, and
+    `norm` of every one of them must be in the certificate. One function per program counter; the rules
+    read `has`, `closed`, `cause`, `txNil`, `netClosed` (which `norm` does not change) and whether `kp` is
+    one of `k2`, `k3o`, `k6` (which `normK` neither maps from nor to). -/
+def normR (has closed : Bool) (cause : Nat) (dead kRecv : Bool) (r : RP) : RP :=
+  if !has then r else match r with
+    | .r0 => if closed then .rEnd else .r0
+    | .rtA1 => if cause != 0 then (if dead then .rEnd else .rtB) else .rtA1
+    | .rtA2 => if cause != 0 then (if dead then .rEnd else .rtB) else .rtA2
     | .rtB => if dead then .rEnd else .rtB
     -- the hand-off select can only take `<-c.ctx.Done()`: no caller is or can come into `recv`'s select
-    | .r2c => if s.cause != 0 && s.kp != .k6 then .rEnd else .r2c
-    | .r2s => if s.cause != 0 && s.kp != .k6 then .rEnd else .r2s
+    | .r2c => if cause != 0 && !kRecv then .rEnd else .r2c
+    | .r2s => if cause != 0 && !kRecv then .rEnd else .r2s
     | r => r
-  let wp := if !s.has then s.wp else match s.wp with
-    | .wc => if s.closed then .wEnd else .wc
-    | .wtA1 => if s.cause != 0 then (if dead then .wEnd else .wtB) else .wtA1
-    | .wtA2 => if s.cause != 0 then (if dead then .wEnd else .wtB) else .wtA2
+
+def normW (p : Params) (has closed : Bool) (cause : Nat) (dead kLoad : Bool) (w : WP) : WP :=
+  if !has then w else match w with
+    | .wc => if closed then .wEnd else .wc
+    | .wtA1 => if cause != 0 then (if dead then .wEnd else .wtB) else .wtA1
+    | .wtA2 => if cause != 0 then (if dead then .wEnd else .wtB) else .wtA2
     | .wtB => if dead then .wEnd else .wtB
     -- the select can only take `<-c.ctx.Done()`: no caller holds or can still load the channel
-    | .ws => if s.cause != 0 && s.kp != .k2 && s.kp != .k3o then .wEnd else .ws
+    | .ws => if cause != 0 && !kLoad then .wEnd else .ws
     -- the error of a message whose sender has left goes into a buffered channel nobody reads
     | .w2sr => if !p.errChBuffered then .w2sr else if p.terminateBeforeErr then .wEnd
-               else (if s.cause != 0 then (if dead then .wEnd else .wtB) else .wtA1)
+               else (if cause != 0 then (if dead then .wEnd else .wtB) else .wtA1)
     | .w2sf => if !p.errChBuffered then .w2sf else if p.terminateBeforeErr then .wEnd
-               else (if s.cause != 0 then (if dead then .wEnd else .wtB) else .wtA2)
-    | .wnAcr => if s.cause != 0 then (if dead then .w2cr else .wnBcr) else .wnAcr
-    | .wnAcf => if s.cause != 0 then (if dead then .w2cf else .wnBcf) else .wnAcf
+               else (if cause != 0 then (if dead then .wEnd else .wtB) else .wtA2)
+    | .wnAcr => if cause != 0 then (if dead then .w2cr else .wnBcr) else .wnAcr
+    | .wnAcf => if cause != 0 then (if dead then .w2cf else .wnBcf) else .wnAcf
     | .wnBcr => if dead then .w2cr else .wnBcr
     | .wnBcf => if dead then .w2cf else .wnBcf
     -- a stale message: the report that follows goes to a channel nobody reads (if buffered)
-    | .wnAsr => if s.cause != 0 then (if dead then (if p.errChBuffered then .wEnd else .w2sr) else .wnBsr) else .wnAsr
-    | .wnAsf => if s.cause != 0 then (if dead then (if p.errChBuffered then .wEnd else .w2sf) else .wnBsf) else .wnAsf
+    | .wnAsr => if cause != 0 then (if dead then (if p.errChBuffered then .wEnd else .w2sr) else .wnBsr) else .wnAsr
+    | .wnAsf => if cause != 0 then (if dead then (if p.errChBuffered then .wEnd else .w2sf) else .wnBsf) else .wnAsf
     | .wnBsr => if dead then (if p.errChBuffered then .wEnd else .w2sr) else .wnBsr
     | .wnBsf => if dead then (if p.errChBuffered then .wEnd else .w2sf) else .wnBsf
     | w => w
-  let kp := match s.kp with
-    | .rc1 => if s.cause != 0 then (if dead then .rc4 else .rc2) else .rc1
-    | .rc2 => if dead then .rc4 else .rc2
-    | .ktA => if s.cause != 0 then .ktB else .ktA
-    | k => k
-  let cdone := s.cref && dead && (s.cp == .ctB || (s.cp == .ctA && s.cause != 0))
-  let cp := if cdone then .cDone else if s.cref && s.cp == .ctA && s.cause != 0 then .ctB else s.cp
-  { s with rp := rp, wp := wp, kp := kp, cp := cp, cref := s.cref && !cdone }
 
-/-- `norm1` is idempotent: its rules read only `closed`, `cause`, `txNil`, `netClosed` (which it does not
-    change) and whether `kp` is one of `k2`, `k3o`, `k6` (which its own rewriting of `kp` never changes). -/
+def normK (cause : Nat) (dead : Bool) (k : KP) : KP :=
+  match k with
+    | .rc1 => if cause != 0 then (if dead then .rc4 else .rc2) else .rc1
+    | .rc2 => if dead then .rc4 else .rc2
+    | .ktA => if cause != 0 then .ktB else .ktA
+    | k => k
+
+/-- `Close()`: program counter and whether it still holds the current connection. -/
+def normC (cref dead : Bool) (cause : Nat) (c : CP) : CP × Bool :=
+  let cdone := cref && dead && (c == .ctB || (c == .ctA && cause != 0))
+  -- (`!cref`: the connection `Close()` is closing has been let go of by `reconnect`; what is left of
+  -- `Close()` touches only that connection — the `Drain` system — and nothing of this one)
+  (if cdone || (!cref && (c == .c2 || c == .ctA || c == .ctB)) then .cDone
+   else if cref && c == .ctA && cause != 0 then .ctB else c, cref && !cdone)
+
+def norm1 (p : Params) (s : St) : St :=
+  let dead := s.txNil && s.netClosed
+  { s with rp := normR s.has s.closed s.cause dead (s.kp == .k6) s.rp,
+           wp := normW p s.has s.closed s.cause dead (s.kp == .k2 || s.kp == .k3o) s.wp,
+           kp := normK s.cause dead s.kp,
+           cp := (normC s.cref dead s.cause s.cp).1, cref := (normC s.cref dead s.cause s.cp).2 }
+
 def norm (p : Params) (s : St) : St := norm1 p s
 
+/-- the UNFUSED successors: every statement is a step of its own. -/
+def ustep (p : Params) (s : St) : List St := stepInt p s ++ stepEnv p s
+
 /-- successors. -/
-def step (p : Params) (s : St) : List St := (stepInt p s ++ stepEnv p s).map (norm p)
+def step (p : Params) (s : St) : List St := (ustep p s).map (norm p)
 
 def sys (p : Params) : Sys St := { init := init, step := step p }
+
+/-- the system without fusion (see `normR` … and `Lemmas/CliFusion.lean`). -/
+def usys (p : Params) : Sys St := { init := init, step := ustep p }
 
 /-! ### bad states -/
 
@@ -485,7 +514,8 @@ def badStale (s : St) : Bool := s.stale
 def badReuse (s : St) : Bool := s.reused
 def badOverflow (s : St) : Bool := s.overflow
 def badPanic (s : St) : Bool := s.panic != 0
-def badTx (s : St) : Bool := s.ntx > 4
+/-- a call has handed its request to a writer more often than its budget allows (first transmission + `retries`). -/
+def badTx (p : Params) (s : St) : Bool := s.ntx > p.retries + 1
 /-- a call that started on a closed client succeeds or dials. -/
 def badAfterClose (s : St) : Bool := s.born && (s.kp == .retOk || s.kp == .rc5)
 /-- a clean call ends in an error. -/
@@ -500,11 +530,77 @@ def badStuck (p : Params) (s : St) : Bool :=
     && !connEnded s && quiescent p s
 def badHandoff (s : St) : Bool := s.kp == .rc4 && s.has && !handoffOk s
 
+/-! #### progress: what happens when nothing fails
+
+  `progress` = the steps of the client's own goroutines, of the transport completing a write and of the
+  server answering — everything except a new call, a cancellation, `Close()` and the fault injector.
+  `measure` is a ranking function: EVERY progress step of EVERY reachable state strictly decreases it
+  (`badMeasure` unreachable), so there is no infinite run of progress steps: between two disturbances
+  the system comes to rest after at most `measure s` steps. -/
+
+def uprogress (p : Params) (s : St) : List St := stepInt p s ++ envAnswer s ++ envWritten s
+
+def progress (p : Params) (s : St) : List St := (uprogress p s).map (norm p)
+
+def kRank : KP → Nat
+  | .idle => 0 | .retOk => 1 | .retErr => 1 | .k7c => 2 | .ktB => 3 | .ktA => 4 | .k6 => 5 | .k5 => 6
+  | .k4 => 7 | .k3o => 8 | .k3n => 8 | .k2 => 9 | .k1 => 10 | .rc5 => 11 | .rc4 => 12 | .rc2 => 13
+  | .rc1 => 14 | .rc0 => 15 | .k0b => 16 | .k0 => 17
+def rRank : RP → Nat
+  | .r0 => 6 | .r1 => 5 | .rtA1 => 4 | .rtA2 => 4 | .rtB => 3 | .r2c => 2 | .r2s => 2 | .rEnd => 0
+def wRank : WP → Nat
+  | .wc => 9 | .ws => 8 | .w1c => 7 | .w1s => 7
+  | .wnAcr => 6 | .wnAcf => 6 | .wnAsr => 6 | .wnAsf => 6
+  | .wnBcr => 5 | .wnBcf => 5 | .wnBsr => 5 | .wnBsf => 5
+  | .w2cr => 4 | .w2cf => 4 | .w2sr => 4 | .w2sf => 4
+  | .wtA1 => 3 | .wtA2 => 3 | .wtB => 2 | .wEnd => 0
+def cRank : CP → Nat
+  | .c0 => 0 | .c1 => 4 | .c2 => 3 | .ctA => 2 | .ctB => 1 | .cDone => 0
+def qLen (q : Q) : Nat := match q with | 0 => 0 | 3 => 2 | _ => 1
+/-- how far the messages of the connection still have to travel. -/
+def tokRank (s : St) : Nat :=
+  (if s.wp == .w1c || s.wp == .w1s then 5 else 0) + 4 * qLen s.pend + 3 * qLen s.infl
+    + (if s.rp == .r2c || s.rp == .r2s then 2 else 0)
+def measure (s : St) : Nat :=
+  s.retry * 10000 + kRank s.kp * 100 + tokRank s * 10 + rRank s.rp + wRank s.wp + cRank s.cp
+
+/-- a progress step that does not decrease the measure. -/
+def badMeasure (p : Params) (s : St) : Bool := !(progress p s).all fun t => Nat.blt (measure t) (measure s)
+
+/-- a clean call that cannot move: no step of the client, no pending write, no answer due; or a progress
+    step that ends the clean call other than through a return. (With `badMeasure` and `badRecover`: a
+    clean call returns its response, after at most `measure` progress steps — `C11.clean_call_succeeds`.) -/
+def badCleanBlocked (p : Params) (s : St) : Bool :=
+  s.clean && kActive s &&
+    ((progress p s).isEmpty || !((progress p s).all fun t => t.clean && t.kp != .idle))
+
+/-! #### the colours mean what the header says (C10)
+
+  `cur` tokens exist only while the caller is inside the exchange it has started on this connection (after
+  the hand-off to the writer, before it leaves `send`/`recv`), there is at most one, the error channel is
+  used only in `send`'s inner select, and `stale` tokens exist only on a connection marked `tainted`. -/
+
+def inExchange (s : St) : Bool := s.kp == .k4 || s.kp == .k5 || s.kp == .k6
+def curCount (s : St) : Nat :=
+  (wHasCur s.wp).toNat + (qHasCur s.pend).toNat + (qHasCur s.infl).toNat + (s.rp == .r2c).toNat
+def badColour (s : St) : Bool :=
+  (hasCur s && !inExchange s) || Nat.blt 1 (curCount s) || (hasStale s && !s.tainted)
+    || (s.errCh != 0 && s.kp != .k4)
+
 /-- everything that must never happen. `raced` (a connection installed although `Close()` had already
     set `c.closed`, and not closed again by `reconnect`) can only be set without `recheckAfterDial`. -/
 def bad (p : Params) (s : St) : Bool :=
-  badStale s || badReuse s || badOverflow s || badPanic s || badTx s || badAfterClose s
+  badStale s || badReuse s || badOverflow s || badPanic s || badTx p s || badAfterClose s
     || badRecover s || badHang p s || badHandoff s || badStuck p s || s.raced
+    || badColour s || badCleanBlocked p s || badMeasure p s
+
+/-- the same predicates read on a state of the unfused system `usys` (progress without `norm`). -/
+def ubad (p : Params) (s : St) : Bool :=
+  badStale s || badReuse s || badOverflow s || badPanic s || badTx p s || badAfterClose s
+    || badRecover s || badHang p s || badHandoff s || badStuck p s || s.raced
+    || badColour s
+    || (s.clean && kActive s && ((uprogress p s).isEmpty || !((uprogress p s).all fun t => t.clean && t.kp != .idle)))
+    || !((uprogress p s).all fun t => Nat.blt (measure t) (measure s))
 
 /-! ### coding -/
 
